@@ -95,3 +95,10 @@ pub unsafe fn vec_set_len<T>(v: &mut Vec<T>, n: usize)
 
 pub assume_specification<T: core::cmp::Ord> [core::cmp::min] (a: T, b: T) -> (r: T)
     ensures r == a || r == b;
+
+// N10 target of `SyncUnsafeCell::as_cell_of_slice(X).get()` (a pointer cast `&[SyncUnsafeCell<T>]` -> `*mut [T]`, both
+// #[repr(transparent)]): the same elements seen without their cells; `unsafe { &*ptr }` after it is a reborrow
+#[verifier::external_body]
+pub fn cells_as_slice<T>(s: &[SyncUnsafeCell<T>]) -> (r: &[T])
+    ensures r@.len() == s@.len(), forall|i: int| 0 <= i < s@.len() ==> r@[i] == (#[trigger] s@[i]).cv(),
+{ unimplemented!() }
